@@ -1096,6 +1096,53 @@ def run_decoders(prop):
     return res
 
 
+REP_MODULE = "CvssVerif.Props.SrcRep"
+REP_THEOREMS = ["constructors_are_schema", "fields_unique", "embedding_is_schema", "options_default_english"]
+
+
+def run_wiring():
+    """regenerate Generated/Wiring.lean from the text of the report constructors of /repo/v3/report (go/wiring) and re-check
+    Props/SrcRep.lean (what each field of each constructor is initialised from = the schema of C17)."""
+    src = os.path.join(core.VERIF, "go", "wiring")
+    out = os.path.join(core.BUILD, "wiring")
+    dst = os.path.join(core.LEAN, "CvssVerif", "Generated", "Wiring.lean")
+    refp = os.path.join(src, "reference.lean")
+    ref = open(refp).read()
+    res = {"status": "not-understood", "note": "", "not_understood": [], "failed": [],
+           "translator": "go/wiring (go/parser; reads what every field of the three report constructors is initialised from, the embedding and the options glue)"}
+
+    def put(txt):
+        if not os.path.exists(dst) or open(dst).read() != txt:
+            open(dst, "w").write(txt)
+    try:
+        core.sh(["go", "build", "-o", out, "."], cwd=src, env=core.GOENV, timeout=300)
+        if os.path.exists(dst + ".new"):
+            os.remove(dst + ".new")
+        p = core.sh([out, core.REPO, dst + ".new", refp], timeout=120, check=False)
+        txt = p.stdout.strip()
+        res["note"] = txt[-800:]
+        for line in txt.splitlines():
+            if line.startswith("not-understood:"):
+                res["not_understood"] = line.split(":", 1)[1].split()
+        if p.returncode == 0 and txt.endswith("written=true") and os.path.exists(dst + ".new"):
+            new = open(dst + ".new").read()
+            os.remove(dst + ".new")
+            put(new)
+            ok, log = core.build_lean([REP_MODULE])
+            if ok:
+                res["status"] = "not-understood" if res["not_understood"] else "proved"
+            else:
+                errs = [l for l in log.splitlines() if l.startswith("error:")]
+                res["note"] = (" | ".join(e[:200] for e in errs))[:1200]
+                res["failed"] = ["report constructors"]
+                res["status"] = "lost"
+            return res
+    except core.BuildError as e:
+        res["note"] = "go/wiring failed: " + str(e)[-600:]
+    put(ref)
+    return res
+
+
 def run_effects():
     """regenerate lean/CvssVerif/Generated/Effects.lean from /repo (write-set facts: translator tie of C15/C16);
     returns the rows that are not what the model assumes (for the report), [] when all is as expected"""
